@@ -304,6 +304,12 @@ impl Run {
         let mut d = Self::end_default();
         d["ok"] = json!(true);
         d["fmt"] = json!(r.fmt);
+        {
+            let mut cbor = vec![];
+            let _ = ciborium::ser::into_writer(r, &mut cbor);
+            d["leaks"] = self.leak_scan(vec![("ctap2 makeCredential response (CBOR)".into(), cbor),
+                                             ("ctap2 makeCredential response (Debug)".into(), format!("{r:?} {r:#?}").into_bytes())]);
+        }
         let bytes = r.auth_data.to_vec();
         let Some(ad) = rp::parse_authdata(&bytes) else {
             d["wf"] = json!(false);
@@ -352,6 +358,12 @@ impl Run {
     pub fn judge_ga(&mut self, r: &get_assertion::Response) -> Value {
         let mut d = Self::end_default();
         d["ok"] = json!(true);
+        {
+            let mut cbor = vec![];
+            let _ = ciborium::ser::into_writer(r, &mut cbor);
+            d["leaks"] = self.leak_scan(vec![("ctap2 getAssertion response (CBOR)".into(), cbor),
+                                             ("ctap2 getAssertion response (Debug)".into(), format!("{r:?} {r:#?}").into_bytes())]);
+        }
         let bytes = r.auth_data.to_vec();
         let Some(ad) = rp::parse_authdata(&bytes) else {
             d["wf"] = json!(false);
@@ -388,6 +400,19 @@ impl Run {
             d["prf2"] = self.prf_pair(p.results.second.as_ref().map(|s| &s[..]), cred.as_ref());
         }
         d
+    }
+
+    /// C06: search the given renderings of returned values (and the Debug rendering of every stored passkey) for secrets
+    pub fn leak_scan(&self, mut outputs: Vec<(String, Vec<u8>)>) -> Value {
+        let creds: Vec<Passkey> = if let Some(c) = &self.extern_contents {
+            c.clone()
+        } else {
+            self.client.as_ref().map(|c| c.authenticator().store().contents()).unwrap_or_default()
+        };
+        for p in &creds {
+            outputs.push(("debug(stored passkey)".to_string(), format!("{p:?} {p:#?}").into_bytes()));
+        }
+        json!(crate::leaks::scan(&creds, &outputs))
     }
 
     pub fn err_end(code: u8) -> Value {
@@ -475,6 +500,8 @@ impl Run {
                         let mut d = Self::end_default();
                         d["ok"] = json!(true);
                         d["digest"] = json!(hex(&bytes));
+                        d["leaks"] = self.leak_scan(vec![("getInfo response (CBOR)".into(), bytes.clone()),
+                                                         ("getInfo response (Debug)".into(), format!("{r:?}").into_bytes())]);
                         json!({"ev": "End", "d": d})
                     }
                 };
@@ -612,7 +639,7 @@ pub fn main(args: &Args) {
     util::quiet_panics();
     match args.pos.first().map(|s| s.as_str()) {
         Some("replay") => replay(args),
-        Some("selftest") => match rp::selftest() {
+        Some("selftest") => match rp::selftest().and_then(|_| crate::leaks::selftest()) {
             Ok(()) => println!("{}", json!({"selftest": "ok"})),
             Err(e) => {
                 eprintln!("pkverif: self-test failed: {e}");
